@@ -319,6 +319,7 @@ namespace plan
     }
 
     void check_all(int units_read);
+    bool nested_zero_length = false; // set by the timeline checks: the solution has a zero-length atom strictly inside another one on a state variable
     void check_toplevel(int units_read);
     void check_rules();
     void check_justification();
